@@ -6,5 +6,5 @@ Extraction "model_difftree.ml"
   N.add N.mul N.div N.modulo N.sub Z.add Z.mul Z.opp Z.of_N Z.abs_N Z.sub Z.ltb
   Tree.lookup Tree.sget Tree.userordered Tree.dup_inst Tree.sorted_sid
   Tree.canonb Tree.uniq_idsb Tree.schema_okb Tree.forest_eqb
-  DiffTree.diff DiffTree.apply DiffTree.redup DiffTree.supportedb DiffTree.strip_dflt
+  DiffTree.diff DiffTree.apply DiffTree.redup DiffTree.supportedb DiffTree.strip_dflt DiffTree.wfb
   DiffRev.reverse DiffMerge.merge.
